@@ -198,7 +198,8 @@ def main(argv):
             checker_errors.append('bounded stage: ' + bounded['error'])
         for f in bounded.get('failures', []):
             payload = {'property': prop, 'obligation': f.get('contract', 'bounded'), 'kind': f['kind'], 'input': f['input'],
-                       'what': f.get('what', ''), 'stage': 'bounded', 'tree': REPO}
+                       'what': f.get('what', ''), 'stage': 'bounded', 'tree': REPO,
+                       'undischarged_obligations_of_this_run': [u[0] for u in undecided][:25]}
             path = write_replay(prop, 'bounded_' + f.get('key', f['kind']), payload)
             violations.append({'key': f.get('key', f['kind']), 'text': f.get('what', ''), 'replay': path, 'suffix': ''})
         # a failing input found by the bounded stage supersedes "no-failing-input-found"
